@@ -134,3 +134,10 @@ pub fn canon(m: i128, e: i32) -> (i128, i32) {
     let tz = m.trailing_zeros();
     (m >> tz, e + tz as i32)
 }
+
+/// a / 2^k truncated toward zero
+pub fn trunc_div_pow2(a: i128, k: u32) -> i128 {
+    let m = if a < 0 { -a } else { a };
+    let q = m >> k;
+    if a < 0 { -q } else { q }
+}
